@@ -32,6 +32,7 @@ Contract file directives (one per line, everything up to the next `//@` line is 
                                           impl or trait block with that header (e.g. `trait SchemeManager`,
                                           `SchemeManager for LocalSchemeManager`)
   //@ replace <count> "<old>" => "<new>" [in <qual>]     exact-match rewrite (normalisation)
+  //@ replace-ws <count> "<old>" => "<new>" [in <qual>]  the same, matching modulo whitespace between the words of <old>
   //@ underscore-params <qual>            rename `_` parameter patterns of that fn to `_pN` (Verus rejects `_` there)
   //@ fmt                                 text layer: rewrite every format!(LIT, args…) of this file's verified functions into a
                                           generated helper `__vfmt_k(&(args)…)` whose external body is the same format! call and
@@ -628,19 +629,22 @@ def annotate(repo, contracts, out):
                 notes['normalisations'].append(dict(file=cur.rel, old=old, new=new, count=1, scope=f.qual,
                                                     note='hoisted into external fn with identical text'))
                 continue
-            m = re.match(r'replace\s+(\d+)\s+' + _q + r'\s*=>\s*' + _q + r'(?:\s+in\s+(.+))?$', head)
+            m = re.match(r'replace(-ws)?\s+(\d+)\s+' + _q + r'\s*=>\s*' + _q + r'(?:\s+in\s+(.+))?$', head)
             if m:
+                ws = bool(m.group(1))
+                m = re.match(r'replace(?:-ws)?\s+(\d+)\s+' + _q + r'\s*=>\s*' + _q + r'(?:\s+in\s+(.+))?$', head)
                 cnt, old, new = int(m.group(1)), unq(m.group(2)), unq(m.group(3))
                 if m.group(4):
                     f = cur.fn(m.group(4).strip())
                     lo, hi = cur.toks[f.fn_tok].pos, cur.toks[f.body_close].end
                 else:
                     lo, hi = 0, len(cur.src)
-                idxs = [lo + x.start() for x in re.finditer(re.escape(old), cur.src[lo:hi])]
-                if len(idxs) != cnt:
-                    raise Lost('%s: normalisation %r expected %d matches, found %d' % (cur.rel, old, cnt, len(idxs)))
-                for ix in idxs:
-                    cur.add(ix, ix + len(old), new, [dict(kind='normalisation', old=old, new=new)])
+                pat = r'\s*'.join(re.escape(x) for x in re.findall(r'\S+', old)) if ws else re.escape(old)
+                ms = list(re.finditer(pat, cur.src[lo:hi]))
+                if len(ms) != cnt:
+                    raise Lost('%s: normalisation %r expected %d matches, found %d' % (cur.rel, old, cnt, len(ms)))
+                for x in ms:
+                    cur.add(lo + x.start(), lo + x.end(), new, [dict(kind='normalisation', old=old, new=new)])
                 notes['normalisations'].append(dict(file=cur.rel, old=old, new=new, count=cnt,
                                                     scope=m.group(4) or 'file'))
                 continue
